@@ -11,7 +11,7 @@ props = [json.loads(l) for l in open(os.path.join(ROOT, "properties.jsonl"))]
 
 CLAIMS = {
     "C02": dict(
-        text="Verus proves, for every arena and all loop iterations, on the real code: (1) regex::do_from_expr / Regex::from_expr build a regex that is the expression leaf for leaf (translation relation `corr`: same shape, the p-th leaf is position p, input_from_position[p] carries that leaf's own text, description, `||` level and span; exactly one position per leaf; root = Cat[r, EndMarker]) -- the clause 'no description or fallback level is moved to a different literal'; (2) RegexNode::nullable / firstpos / lastpos / followpos and their do_* workers compute the Dragon-book set functions (whole-view postconditions on the &mut accumulators; followpos via a lemma that the code's omission of the descent below a Star is harmless for every regex from_expr returns); (3) check::do_propagate_fallback_levels gives every leaf the index of the `||` branch it sits in, distribute_descriptions leaves no DistributiveDescription node, flatten_expr / collapse_subwords leave no (nested) Subword node. The remaining links of the chain (first/last/follow sets -> accepted language, subset construction, minimisation, from_grammar glue) are decided only by a labelled bounded stand-in: complete language-equivalence (labels included) between an independent reference semantics and the real automaton, before and after minimisation, for every expression tree up to 4 (thorough: 5) nodes plus seeded random larger ones.",
+        text="Verus proves, for every arena and all loop iterations, on the real code: (1) regex::do_from_expr / Regex::from_expr build a regex that is the expression leaf for leaf (translation relation `corr`: same shape, the p-th leaf is position p, input_from_position[p] carries that leaf's own text, description, `||` level and span; exactly one position per leaf; root = Cat[r, EndMarker]) -- the clause 'no description or fallback level is moved to a different literal'; (2) RegexNode::nullable / firstpos / lastpos / followpos and their do_* workers compute the Dragon-book set functions (whole-view postconditions on the &mut accumulators; followpos via a lemma that the code's omission of the descent below a Star is harmless for every regex from_expr returns); (3) Kani, full domain of the extracted enums: dfa::Inp::from_input turns a regex item into the automaton symbol with the same text, description and level (a command into a compadd symbol exactly when marked so); (4) check::do_propagate_fallback_levels gives every leaf the index of the `||` branch it sits in, distribute_descriptions leaves no DistributiveDescription node, flatten_expr / collapse_subwords leave no (nested) Subword node. The remaining links of the chain (first/last/follow sets -> accepted language, subset construction, minimisation, from_grammar glue) are decided only by a labelled bounded stand-in: complete language-equivalence (labels included) between an independent reference semantics and the real automaton, before and after minimisation, for every expression tree up to 4 (thorough: 5) nodes plus seeded random larger ones.",
         note="Proved: 20 functions of regex.rs / check.rs / parse.rs + Index impls. Assumed: shims for RoaringBitmap, the followpos BTreeMap, UstrMap, RegexInternPool, OnceCell (prelude/), derived Clone, rewrite rules R1/R2/R3/R3e/R9/R12; positions fit u32 (precondition). Not proved: the Glushkov theorem (sets -> language), dfa_from_regex, do_minimize, the from_grammar glue and the preconditions it must establish (bounded only).",
         design="§7 C02", tech="Verus contracts (spec functions and translation relations over the arenas, loop invariants, ghost snapshots, induction lemmas) on mechanically extracted regex.rs / check.rs / parse.rs functions; bounded pipeline equivalence as labelled stand-in", cat="proof"),
     "C03": dict(
